@@ -183,8 +183,21 @@ class Pkg(object):
             from .rename import canonical_names
             self.renames = canonical_names({name: m.tree for name, m in self.mods.items()})
             _canon.struct_objects({name: m.tree for name, m in self.mods.items()})
+        _canon.NONNULL_CONSTS.clear()
+        cm = self.mods.get("constants")
+        if cm is not None:
+            import ast as _ast
+            once = {}
+            for st in cm.tree.body:
+                if isinstance(st, _ast.Assign) and len(st.targets) == 1 and isinstance(st.targets[0], _ast.Name):
+                    once.setdefault(st.targets[0].id, []).append(st.value)
+            for name, vals in once.items():
+                if len(vals) == 1 and isinstance(vals[0], (_ast.Constant, _ast.Dict, _ast.List, _ast.Tuple, _ast.Set)) and not (isinstance(vals[0], _ast.Constant) and vals[0].value is None):
+                    _canon.NONNULL_CONSTS.add(_canon._dump(_ast.Attribute(value=_ast.Name(id="constants", ctx=_ast.Load()), attr=name, ctx=_ast.Load())))
         _canon.SIGS.clear()
         _canon.SIGS.update(_canon.build_signatures([m.tree for m in self.mods.values()]))
+        _canon.CLASS_METHODS.clear()
+        _canon.CLASS_METHODS.update(_canon.build_class_methods([m.tree for m in self.mods.values()]))
         for mod in self.mods.values():
             mod.canonicalise()
             self._index(mod)
